@@ -30,18 +30,18 @@ fn dir_id(d: AnimationDirection) -> u8 {
 
 /// Postcondition of tags::parse_chunk against the layout: Ok iff the declared number of tags can be
 /// read (layout, UTF-8, direction <= 2), and then tag k has the attributes stored at its position, in file order.
-fn check_tags_chunk(data: &[u8]) -> bool {
+pub(crate) fn check_tags_chunk(data: &[u8]) -> bool {
     let got = parse_chunk(data);
     let decoded_ok = got.is_ok();
     // spec walk
     let mut want: Option<usize> = None; // number of tags when well-formed
     let mut ok = true;
-    let mut offs = [0usize; 4];
+    let mut offs = [0usize; 16];
     if let Some(n) = fmt::tags_count(data) {
         let mut p = 10;
         let mut k = 0usize;
         while k < n as usize {
-            if k >= 4 {
+            if k >= 16 {
                 ok = false; // more tags than this harness shape can hold: must fail on these sizes
                 break;
             }
